@@ -34,7 +34,8 @@ it carries:
   way if that run had ended on its own, and with `FailReadFile` if it ended `Ok`.
 * C15 at program level — `line_order_irrelevant`, `permuted_lines_same_answer`: for an aggregate statement text
   whose lowered statement is `PermSafe` on the input, every permutation of the input LINES (within and across
-  files) gives the same answer.
+  files) gives the same answer; `split_input_is_merge_of_summaries`, `split_file_is_split_input`: over an input split in
+  two the program prints the table of the key-wise merged per-part summaries (`partSummaries`, `mergeSummaries`).
 * C01 / C02 inside the program — `query_sees_extracted_rows`, `seen_row_is_specified`, `seen_json_column_is_specified`:
   the row the statement is given for a line of an input file (or of the joined file) is `Extract.extractRow` of the
   table definition the definition text lowers to, on the facts of that very line — so the theorems of `Props/C01.lean`
@@ -215,9 +216,9 @@ theorem lines_before_invalid_line_are_processed (F : Facts) (defsText queryText 
 every format, same status, same line count — for every definition text and every aggregate statement text without
 join, whenever for the first input the specification `Spec.Agg.batch` answers with an empty deviation class on the
 extracted rows, the lowered statement is `PermSafe` on them (the hypotheses of `Props/C15.lean`: order-insensitive
-aggregates, exact extremes, order-free sums) and the second input is outside D10 / D15 as well. `StmtWF` is discharged
-by the lowering (`lowered_aggregate_is_wellformed`); that the second input is covered by the facts and prepared
-follows from the first. -/
+aggregates, exact extremes, order-free sums). `StmtWF` is discharged by the lowering
+(`lowered_aggregate_is_wellformed`); that the second input is covered by the facts, prepared, and outside D10 / D15 as
+well follows from the first (`deviationClass_perm`: the class is a function of the multiset of the lines). -/
 theorem line_order_irrelevant (F : Facts) (defsText queryText : List Char) (fmt : Print.Format) (single : Bool)
     (files₁ files₂ : List (List Nat)) (hperm : (files₁.flatMap Reader.lines).Perm (files₂.flatMap Reader.lines))
     (defs : LStmt) (tables : List Table) (a : AggStmt) (fromTable : String) (file : Option String) (p₁ : Prepared) (ro : RunOut)
@@ -228,9 +229,7 @@ theorem line_order_irrelevant (F : Facts) (defsText queryText : List Char) (fmt 
     (ht : addTables defs = some tables)
     (hprep : prepare F tables (.aggregate a) fromTable none files₁ = some p₁)
     (hb : Spec.Agg.batch F.eval p₁.qy a p₁.joined p₁.files = some (ro, ""))
-    (hsafe : ∀ keyed, keyedRows F.eval a (envsOf p₁.qy.table p₁.files.flatten) = some keyed → PermSafe F.eval a keyed)
-    (hc₂ : ∀ p₂, prepare F tables (.aggregate a) fromTable none files₂ = some p₂ →
-      deviationClass F.eval a (envsOf p₂.qy.table p₂.files.flatten) = "") :
+    (hsafe : ∀ keyed, keyedRows F.eval a (envsOf p₁.qy.table p₁.files.flatten) = some keyed → PermSafe F.eval a keyed) :
     runText F defsText queryText fmt single files₁ = runText F defsText queryText fmt single files₂ := by
   obtain ⟨t, hg, htab, hstmt, hcov, hfiles, hnj, _⟩ := prepare_files F tables (.aggregate a) fromTable none files₁ p₁ hprep
   obtain ⟨hj, _⟩ := hnj rfl
@@ -245,10 +244,7 @@ theorem line_order_irrelevant (F : Facts) (defsText queryText : List Char) (fmt 
   have hwf := Props.Pipeline.lowered_aggregate_is_wellformed _ _ _ a fromTable file none hq
   have hperm' : p₁.files.flatten.Perm ((files₂.map (fileOf (extractedLine F t.defn))).flatten) := by
     rw [hfiles, fileOf_flatten, fileOf_flatten]; exact hperm.map _
-  have hdev : deviationClass F.eval a (envsOf p₁.qy.table (files₂.map (fileOf (extractedLine F t.defn))).flatten) = "" := by
-    have h0 := hc₂ _ hprep₂
-    rw [htab]; exact h0
-  have hrun := runBatchT_perm_invariant hstmt hwf hj p₁.joined (some p₁.joined) hperm' hsafe hb hdev
+  have hrun := runBatchT_perm_invariant hstmt hwf hj p₁.joined (some p₁.joined) hperm' hsafe hb
   obtain ⟨hr₁, _⟩ := runStatement_of_prepare F tables (.aggregate a) fromTable none files₁ _ hprep
   obtain ⟨hr₂, _⟩ := runStatement_of_prepare F tables (.aggregate a) fromTable none files₂ _ hprep₂
   rw [runText_eq_runLowered F defsText queryText fmt single files₁ defs _ hc hd hp hq,
@@ -281,12 +277,97 @@ theorem permuted_lines_same_answer (F : Facts) (defsText queryText : List Char) 
     (ht : addTables defs = some tables)
     (hprep : prepare F tables (.aggregate a) fromTable none [unlines ls₁] = some p₁)
     (hb : Spec.Agg.batch F.eval p₁.qy a p₁.joined p₁.files = some (ro, ""))
-    (hsafe : ∀ keyed, keyedRows F.eval a (envsOf p₁.qy.table p₁.files.flatten) = some keyed → PermSafe F.eval a keyed)
-    (hc₂ : ∀ p₂, prepare F tables (.aggregate a) fromTable none [unlines ls₂] = some p₂ →
-      deviationClass F.eval a (envsOf p₂.qy.table p₂.files.flatten) = "") :
+    (hsafe : ∀ keyed, keyedRows F.eval a (envsOf p₁.qy.table p₁.files.flatten) = some keyed → PermSafe F.eval a keyed) :
     runText F defsText queryText fmt single [unlines ls₁] = runText F defsText queryText fmt single [unlines ls₂] :=
   line_order_irrelevant F defsText queryText fmt single _ _ (permuted_lines_read_back ls₁ ls₂ hperm hnl).1
-    defs tables a fromTable file p₁ ro hc hd hp hq ht hprep hb hsafe hc₂
+    defs tables a fromTable file p₁ ro hc hd hp hq ht hprep hb hsafe
+
+/-- **The program over a split input prints the table of the merged summaries of the parts** (C15, input split, at program
+level). Input files `files₁` followed by `files₂` (any bytes; e.g. one file each), an aggregate statement text without join
+whose aggregates are order-insensitive. Whenever the runs over the two parts are prepared (`p₁`, `p₂`: tables defined, facts
+shipped — the run over all files is then prepared too), the specification `Spec.Agg.batch` answers for the rows extracted
+from `files₁`, from `files₂` and from all files — with an empty deviation class for the two parts; the class `cls` of the whole
+is then empty too —, and `SplitSafe` holds per group (the provisos of
+`Props/C15.lean`): there are keyed summaries `S₁`, `S₂` — `Sᵢ = partSummaries` of the rows extracted from part i, what that
+part has to remember — such that the program's answer over part i is the rendering, in the requested format, of the one table
+`tableOfSummaries … Sᵢ` (`tableTrace`: `Ok`, the part's lines counted, one final print call), and its answer over
+`files₁ ++ files₂` is the rendering of `tableOfSummaries … (mergeSummaries a S₁ S₂)` with all lines counted: the output over
+the whole input is determined by the per-part summaries. `StmtWF` is discharged by the lowering. -/
+theorem split_input_is_merge_of_summaries (F : Facts) (defsText queryText : List Char) (fmt : Print.Format) (single : Bool)
+    (files₁ files₂ : List (List Nat))
+    (defs : LStmt) (tables : List Table) (a : AggStmt) (fromTable : String) (file : Option String) (p₁ p₂ : Prepared)
+    (ro ro₁ ro₂ : RunOut) (cls : String)
+    (hc : classesCover F defsText = true ∧ classesCover F queryText = true)
+    (hd : parseText (lexOracles F) (regexValidFn F) defsText = .stmt defs)
+    (hp : (createPatterns defs).all (fun re => ((Utf8.decode re).bind (regexValidOf F)).isSome) = true)
+    (hq : parseText (lexOracles F) (regexValidFn F) queryText = .stmt (.aggregate a fromTable file none))
+    (ht : addTables defs = some tables)
+    (hprep₁ : prepare F tables (.aggregate a) fromTable none files₁ = some p₁)
+    (hprep₂ : prepare F tables (.aggregate a) fromTable none files₂ = some p₂)
+    (hOI : ∀ kind ∈ slotKinds a, orderInsensitive kind = true)
+    (hb : Spec.Agg.batch F.eval p₁.qy a p₁.joined (p₁.files ++ p₂.files) = some (ro, cls))
+    (hb₁ : Spec.Agg.batch F.eval p₁.qy a p₁.joined p₁.files = some (ro₁, ""))
+    (hb₂ : Spec.Agg.batch F.eval p₂.qy a p₂.joined p₂.files = some (ro₂, ""))
+    (hsafe : ∀ k₁ k₂, keyedRows F.eval a (envsOf p₁.qy.table p₁.files.flatten) = some k₁ →
+      keyedRows F.eval a (envsOf p₂.qy.table p₂.files.flatten) = some k₂ →
+      ∀ k, SplitSafe F.eval a (rowsOfKey k k₁) (rowsOfKey k k₂)) :
+    ∃ S₁ S₂ t₁ t₂ t,
+      partSummaries F.eval a (envsOf p₁.qy.table p₁.files.flatten) = some S₁ ∧
+      partSummaries F.eval a (envsOf p₂.qy.table p₂.files.flatten) = some S₂ ∧
+      tableOfSummaries F.eval a S₁ = some t₁ ∧ tableOfSummaries F.eval a S₂ = some t₂ ∧
+      tableOfSummaries F.eval a (mergeSummaries a S₁ S₂) = some t ∧
+      runText F defsText queryText fmt single files₁ = answerOf F fmt single (tableTrace a t₁ p₁.files.flatten.length) ∧
+      runText F defsText queryText fmt single files₂ = answerOf F fmt single (tableTrace a t₂ p₂.files.flatten.length) ∧
+      runText F defsText queryText fmt single (files₁ ++ files₂) =
+        answerOf F fmt single (tableTrace a t (p₁.files.flatten.length + p₂.files.flatten.length)) := by
+  obtain ⟨t, hg, _, hstmt, hcov₁, _, hnj, _⟩ := prepare_files F tables (.aggregate a) fromTable none files₁ p₁ hprep₁
+  obtain ⟨t', hg', _, _, hcov₂, _, _, _⟩ := prepare_files F tables (.aggregate a) fromTable none files₂ p₂ hprep₂
+  have htt : t' = t := Option.some.inj (hg'.symm.trans hg)
+  subst htt
+  obtain ⟨hj, _⟩ := hnj rfl
+  have hcov : filesCovered F t'.defn (files₁ ++ files₂) = true := by rw [filesCovered_append, hcov₁, hcov₂]; rfl
+  have e₁ := prepare_nojoin_of_covered F tables (.aggregate a) fromTable files₁ t' hg hcov₁
+  have e₂ := prepare_nojoin_of_covered F tables (.aggregate a) fromTable files₂ t' hg hcov₂
+  have hprep := prepare_nojoin_of_covered F tables (.aggregate a) fromTable (files₁ ++ files₂) t' hg hcov
+  have hp₁ := Option.some.inj (hprep₁.symm.trans e₁)
+  have hp₂ := Option.some.inj (hprep₂.symm.trans e₂)
+  have hqy : p₂.qy = p₁.qy := by rw [hp₁, hp₂]
+  have hjd₁ : p₁.joined = [] := by rw [hp₁]
+  have hjd₂ : p₂.joined = [] := by rw [hp₂]
+  have hfiles : (files₁ ++ files₂).map (fileOf (extractedLine F t'.defn)) = p₁.files ++ p₂.files := by
+    rw [List.map_append, hp₁, hp₂]
+  have hwf := Props.Pipeline.lowered_aggregate_is_wellformed _ _ _ a fromTable file none hq
+  rw [hqy, hjd₂, ← hjd₁] at hb₂
+  rw [hqy] at hsafe
+  obtain ⟨S₁, S₂, t₁, t₂, tt, hS₁, hS₂, hT₁, hT₂, hT, r₁, r₂, r⟩ :=
+    runBatchT_concat_merge_summaries hstmt hwf hj hOI p₁.joined (some p₁.joined) (f := p₁.files ++ p₂.files)
+      (List.flatten_append) hb hb₁ hb₂ hsafe
+  obtain ⟨hr₁, _⟩ := runStatement_of_prepare F tables (.aggregate a) fromTable none files₁ _ hprep₁
+  obtain ⟨hr₂, _⟩ := runStatement_of_prepare F tables (.aggregate a) fromTable none files₂ _ hprep₂
+  obtain ⟨hr, _⟩ := runStatement_of_prepare F tables (.aggregate a) fromTable none (files₁ ++ files₂) _ hprep
+  simp only [hfiles] at hr
+  have hq₀ : ({ stmt := Stmt.aggregate a, table := t'.info, join := none } : Query) = p₁.qy := by rw [hp₁]
+  rw [hq₀] at hr
+  rw [hqy, hjd₂, ← hjd₁] at hr₂
+  have hr' : runStatement F tables (.aggregate a) fromTable none (files₁ ++ files₂) =
+      some (runBatchT F.eval p₁.qy (some p₁.joined) (p₁.files ++ p₂.files)) := by rw [hr, hjd₁]
+  refine ⟨S₁, S₂, t₁, t₂, tt, hS₁, by rw [hqy]; exact hS₂, hT₁, hT₂, hT, ?_, ?_, ?_⟩
+  · rw [runText_eq_runLowered F defsText queryText fmt single files₁ defs _ hc hd hp hq,
+      runLowered_eq F defs _ fmt single files₁ tables (.aggregate a) fromTable none _ ht rfl hr₁, r₁]
+  · rw [runText_eq_runLowered F defsText queryText fmt single files₂ defs _ hc hd hp hq,
+      runLowered_eq F defs _ fmt single files₂ tables (.aggregate a) fromTable none _ ht rfl hr₂, r₂]
+  · rw [runText_eq_runLowered F defsText queryText fmt single (files₁ ++ files₂) defs _ hc hd hp hq,
+      runLowered_eq F defs _ fmt single (files₁ ++ files₂) tables (.aggregate a) fromTable none _ ht rfl hr', r]
+
+/-- … and for ONE file cut in two at a line boundary: the program over the file `pre ++ post` (`pre` ends with a newline, or
+is empty) answers as over the two files `[pre, post]` (`multi_file_eq_concat_program`, C12), i.e. with the table of the merged
+summaries of `pre` and `post` -/
+theorem split_file_is_split_input (F : Facts) (defsText queryText : List Char) (fmt : Print.Format) (single : Bool)
+    (pre post : List Nat) (h : NlTerminated pre) :
+    runText F defsText queryText fmt single [pre ++ post] = runText F defsText queryText fmt single ([pre] ++ [post]) := by
+  have := multi_file_eq_concat_program F defsText queryText fmt single [pre] post (by simpa using h)
+  rw [this]
+  simp
 
 /-! ### C01 / C02: the rows the query sees are `extractRow` of the lowered table definition -/
 
@@ -524,7 +605,7 @@ instance : DecidableEq (Except Unit (List Nat))
   | .error _, .ok _ => isFalse (fun e => by cases e)
 
 /-- the hypotheses of `line_order_irrelevant` that can be evaluated (texts lower, run prepared, the specification
-answers with an empty deviation class for both inputs) on a concrete pair of inputs … -/
+answers with an empty deviation class for the first input) on a concrete pair of inputs … -/
 def exPermHyps (F : Facts) (defsText queryText : List Char) (files₁ files₂ : List (List Nat)) : Bool :=
   classesCover F defsText && classesCover F queryText &&
   decide ((files₁.flatMap Reader.lines).Perm (files₂.flatMap Reader.lines)) &&
@@ -533,12 +614,12 @@ def exPermHyps (F : Facts) (defsText queryText : List Char) (files₁ files₂ :
     (createPatterns defs).all (fun re => ((Utf8.decode re).bind (regexValidOf F)).isSome) &&
     match addTables defs with
     | some tables =>
-      match prepare F tables (.aggregate a) fromTable none files₁, prepare F tables (.aggregate a) fromTable none files₂ with
-      | some p₁, some p₂ =>
+      match prepare F tables (.aggregate a) fromTable none files₁ with
+      | some p₁ =>
         (match Spec.Agg.batch F.eval p₁.qy a p₁.joined p₁.files with
           | some (_, cls) => cls == ""
-          | none => false) && deviationClass F.eval a (envsOf p₂.qy.table p₂.files.flatten) == ""
-      | _, _ => false
+          | none => false)
+      | none => false
     | none => false
   | _, _ => false
 
@@ -565,6 +646,53 @@ example :
     recordsOf (runText exFacts exDefs "select k, count(*), max(v), sum(v) from t group by k".toList .text false [strBytes "a;1\nb;2\nzzz\n", strBytes "a;1\n"]) =
     recordsOf (runText exFacts exDefs "select k, count(*), max(v), sum(v) from t group by k".toList .text false [strBytes "a;1\r\nzzz\n", strBytes "a;1\nb;2"]) := by
   decide +kernel
+
+/-- the hypotheses of `split_input_is_merge_of_summaries` that can be evaluated (texts lower, order-insensitive aggregates,
+both parts prepared, the specification answers with an empty deviation class for the parts and for the whole, `SplitSafe` by
+the decidable check `splitSafeInputsB`) on a concrete invocation … -/
+def exSplitHyps (F : Facts) (defsText queryText : List Char) (files₁ files₂ : List (List Nat)) : Bool :=
+  classesCover F defsText && classesCover F queryText &&
+  match parseText (lexOracles F) (regexValidFn F) defsText, parseText (lexOracles F) (regexValidFn F) queryText with
+  | .stmt defs, .stmt (.aggregate a fromTable _ none) =>
+    (createPatterns defs).all (fun re => ((Utf8.decode re).bind (regexValidOf F)).isSome) &&
+    (slotKinds a).all orderInsensitive &&
+    match addTables defs with
+    | some tables =>
+      match prepare F tables (.aggregate a) fromTable none files₁, prepare F tables (.aggregate a) fromTable none files₂ with
+      | some p₁, some p₂ =>
+        (Spec.Agg.batch F.eval p₁.qy a p₁.joined (p₁.files ++ p₂.files)).map (·.2) == some "" &&
+        (Spec.Agg.batch F.eval p₁.qy a p₁.joined p₁.files).map (·.2) == some "" &&
+        (Spec.Agg.batch F.eval p₂.qy a p₂.joined p₂.files).map (·.2) == some "" &&
+        splitSafeInputsB F.eval a (envsOf p₁.qy.table p₁.files.flatten) (envsOf p₂.qy.table p₂.files.flatten)
+      | _, _ => false
+    | none => false
+  | _, _ => false
+
+example : exSplitHyps exFacts exDefs
+    "select k, count(*), max(v), sum(v), avg(v), min(v), count(distinct v), percentile(v, 0.5) from t group by k".toList
+    [strBytes "a;1\nb;2\nzzz\n"] [strBytes "b;2\nb;2\na;1"] = true := by decide +kernel
+
+/-- … whose answers are: over the parts (a: 1 row, b: 1 row | a: 1 row, b: 2 rows) and over the whole, as two files and as one
+file cut at the line boundary — counts and sums added, extremes combined, 6 lines counted -/
+example :
+    recordsOf (runText exFacts exDefs "select k, count(*), max(v), sum(v), avg(v), min(v), count(distinct v), percentile(v, 0.5) from t group by k".toList
+      .text false [strBytes "a;1\nb;2\nzzz\n"]) =
+      some (none, 3, [strBytes "k: 'a', count1: 1, max2: 1, sum3: 1, avg4: 1, min5: 1, count6: 1, percentile7: 1",
+                      strBytes "k: 'b', count1: 1, max2: 2, sum3: 2, avg4: 2, min5: 2, count6: 1, percentile7: 2"]) ∧
+    recordsOf (runText exFacts exDefs "select k, count(*), max(v), sum(v), avg(v), min(v), count(distinct v), percentile(v, 0.5) from t group by k".toList
+      .text false [strBytes "b;2\nb;2\na;1"]) =
+      some (none, 3, [strBytes "k: 'a', count1: 1, max2: 1, sum3: 1, avg4: 1, min5: 1, count6: 1, percentile7: 1",
+                      strBytes "k: 'b', count1: 2, max2: 2, sum3: 4, avg4: 2, min5: 2, count6: 1, percentile7: 2"]) ∧
+    recordsOf (runText exFacts exDefs "select k, count(*), max(v), sum(v), avg(v), min(v), count(distinct v), percentile(v, 0.5) from t group by k".toList
+      .text false ([strBytes "a;1\nb;2\nzzz\n"] ++ [strBytes "b;2\nb;2\na;1"])) =
+      some (none, 6, [strBytes "k: 'a', count1: 2, max2: 1, sum3: 2, avg4: 1, min5: 1, count6: 1, percentile7: 1",
+                      strBytes "k: 'b', count1: 3, max2: 2, sum3: 6, avg4: 2, min5: 2, count6: 1, percentile7: 2"]) ∧
+    runText exFacts exDefs "select k, count(*), max(v), sum(v), avg(v), min(v), count(distinct v), percentile(v, 0.5) from t group by k".toList
+      .text false [strBytes "a;1\nb;2\nzzz\n" ++ strBytes "b;2\nb;2\na;1"] =
+    runText exFacts exDefs "select k, count(*), max(v), sum(v), avg(v), min(v), count(distinct v), percentile(v, 0.5) from t group by k".toList
+      .text false ([strBytes "a;1\nb;2\nzzz\n"] ++ [strBytes "b;2\nb;2\na;1"]) := by
+  refine ⟨by decide +kernel, by decide +kernel, by decide +kernel, ?_⟩
+  exact split_file_is_split_input _ _ _ _ _ _ _ (by decide +kernel)
 
 /-- the hypothesis of `query_sees_extracted_rows` (a prepared run) holds on the invocations of `Props/Pipeline.lean`
 (`exSelectHyps`, `exAggHyps` evaluate `prepare … = some p`); the row seen for `a;1` is the extracted one -/
